@@ -4,13 +4,21 @@
     of pygyro/poisson/poisson_tools.py and the row lookup of DensityFinder.getPerturbedRho; it is run at Qc
     (DensityQc.v) against the real source executed on Fractions.
 
+    Composition with C08 / C09 (DensityExact.v): with the weights computed by the C09 model of
+    BSplines._build_integrals + get_quadrature_coefficients ([ip_quadrature]) the density IS sum_j I_j c_j for the
+    interpolant c along v ([c16_rho_is_integral_of_interpolant], no hypothesis on the weights), it is the exact integral
+    sum_m a_m (b^(m+1) - a^(m+1))/(m+1) for nodal values of a polynomial of degree <= p on a clamped general space
+    ([c16_rho_exact_polynomial]) and the constant times the domain length for data constant in v on both the general
+    and the uniform-cubic path.
+
     NOT proved here:
-    - that the vector I of [c16_rho_exact] holds the integrals of the basis functions (BSplines.integrals: C09),
-      and that get_quadrature_coefficients solves C^T q = I exactly (LAPACK / SuperLU, checked numerically);
+    - the classical identity that the stored value (t_{j+p+1} - t_j)/(p+1) is the integral of B_j (cited in C09; for
+      polynomials the result is nevertheless the exact integral, proved here by telescoping the Marsden coefficients);
+    - that LAPACK / SuperLU realise the exact solves of the model (float level, checked numerically);
     - floating-point rounding of the accumulation. *)
 From Coq Require Import List Arith Lia ZArith Bool QArith Qcanon.
 Import ListNotations.
-From PGV Require Import Blocks Sums GridSteps Density DensityQc.
+From PGV Require Import Blocks Sums GridSteps BasisCoxDeBoor CoxDeBoorGen FindSpan CubicUniform SplineModel SplineTheory SplineQc InterpModel InterpTheory QuadTheory MarsdenTheory InterpQc Density DensityQc DensityExact DensityExactQc.
 Close Scope Q_scope.
 Close Scope Qc_scope.
 Open Scope nat_scope.
@@ -75,6 +83,72 @@ Theorem c16_rho_perturbed_exact :
 Proof. exact dn_rho_perturbed_exact. Qed.
 Print Assumptions c16_rho_perturbed_exact.
 
+(** rho_is_integral_of_interpolant: with the v-quadrature weights computed by the C09 model (ip_quadrature on the v space: any of clamped / periodic, general / uniform cubic) the density sum_l w_l u_l equals sum_j I_j c_j, c the v-interpolant of u = f(r,theta,z,.), I the stored basis integrals (folded for periodic spaces); no hypothesis on the weights - success of the two calls includes the checked inverse *)
+Theorem c16_rho_is_integral_of_interpolant :
+  forall (F : Type) (K : sp_ops F), sp_laws K -> forall (knots : list F) (degree : nat) (periodic cubic : bool) (xs w u c : list F), ip_quadrature F K knots degree periodic cubic xs = SpOk w -> ip_interp1d F K knots degree periodic cubic xs u = SpOk c -> let nb := ip_nbasis F K knots degree periodic cubic in length w = nb /\ (exists I : list F, ip_integrals F K knots degree periodic cubic = SpOk I /\ dn_rho0_fn F (sp0 K) (spadd K) (spmul K) nb (fun l : nat => nth l w (sp0 K)) (fun l : nat => nth l u (sp0 K)) = sumn F (sp0 K) (spadd K) nb (fun j : nat => spmul K (nth j (ip_quad_rhs F K nb degree periodic I) (sp0 K)) (nth j c (sp0 K)))).
+Proof. exact dn_rho_is_integral_of_interpolant. Qed.
+Print Assumptions c16_rho_is_integral_of_interpolant.
+
+(** the perturbed density is sum_j I_j (c_j - ce_j), ce the interpolant of the equilibrium row *)
+Theorem c16_prho_is_integral_of_interpolant :
+  forall (F : Type) (K : sp_ops F), sp_laws K -> forall (knots : list F) (degree : nat) (periodic cubic : bool) (xs w u e c ce : list F), ip_quadrature F K knots degree periodic cubic xs = SpOk w -> ip_interp1d F K knots degree periodic cubic xs u = SpOk c -> ip_interp1d F K knots degree periodic cubic xs e = SpOk ce -> let nb := ip_nbasis F K knots degree periodic cubic in exists I : list F, ip_integrals F K knots degree periodic cubic = SpOk I /\ dn_rho_fn F (sp0 K) (spadd K) (spmul K) (spsub K) nb (fun l : nat => nth l w (sp0 K)) (fun l : nat => nth l u (sp0 K)) (fun l : nat => nth l e (sp0 K)) = sumn F (sp0 K) (spadd K) nb (fun j : nat => spmul K (nth j (ip_quad_rhs F K nb degree periodic I) (sp0 K)) (spsub K (nth j c (sp0 K)) (nth j ce (sp0 K)))).
+Proof. exact dn_prho_is_integral_of_interpolant. Qed.
+Print Assumptions c16_prho_is_integral_of_interpolant.
+
+(** the same for the list model of get_rho: every cell of rho holds sum_j I_j c_j(i,j,k) *)
+Theorem c16_model_rho_is_integral :
+  forall (F : Type) (K : sp_ops F), sp_laws K -> forall (knots : list F) (degree : nat) (periodic cubic : bool) (xs w : list F) (n m p : nat) (grid : list (list (list (list F)))) (gf : nat -> nat -> nat -> nat -> F) (cf : nat -> nat -> nat -> list F), ip_quadrature F K knots degree periodic cubic xs = SpOk w -> let nb := ip_nbasis F K knots degree periodic cubic in (forall i j k l : nat, i < n -> j < m -> k < p -> l < nb -> dn_at4 F grid i j k l = Some (gf i j k l)) -> (forall i j k : nat, i < n -> j < m -> k < p -> ip_interp1d F K knots degree periodic cubic xs (map (gf i j k) (seq 0 nb)) = SpOk (cf i j k)) -> exists (rho : list (list (list F))) (I : list F), dn_get_rho F (sp0 K) (spadd K) (spmul K) n m p grid w = Some rho /\ ip_integrals F K knots degree periodic cubic = SpOk I /\ (forall i j k : nat, i < n -> j < m -> k < p -> dn_at3 F rho i j k = Some (sumn F (sp0 K) (spadd K) nb (fun j' : nat => spmul K (nth j' (ip_quad_rhs F K nb degree periodic I) (sp0 K)) (nth j' (cf i j k) (sp0 K))))).
+Proof. exact dn_model_rho_is_integral. Qed.
+Print Assumptions c16_model_rho_is_integral.
+
+(** constant in v, general clamped path: the density is the constant times the length of the v domain (c09_weights_sum_clamped) *)
+Theorem c16_rho_const_general :
+  forall (F : Type) (K : sp_ops F), sp_laws K -> forall (knots : list F) (d : nat) (xs w : list F) (kappa : F), ip_clamped F K knots d -> ip_quadrature F K knots d false false xs = SpOk w -> (forall i : nat, i < ip_nbasis F K knots d false false -> sp_le K (sp_kn F K knots d) (nth i xs (sp0 K)) /\ sp_le K (nth i xs (sp0 K)) (sp_kn F K knots (length knots - 1 - d))) -> dn_rho0_fn F (sp0 K) (spadd K) (spmul K) (ip_nbasis F K knots d false false) (fun l : nat => nth l w (sp0 K)) (fun _ : nat => kappa) = spmul K kappa (spsub K (sp_kn F K knots (length knots - 1 - d)) (sp_kn F K knots d)).
+Proof. exact dn_rho_const_general. Qed.
+Print Assumptions c16_rho_const_general.
+
+(** constant in v, uniform-cubic clamped path, every cell count: the constant times ncells*dx (c09_weights_sum_cubic_clamped) *)
+Theorem c16_rho_const_cubic :
+  forall (F : Type) (K : sp_ops F), sp_laws K -> forall (xmin xmax dx fn : F) (n : nat) (xs w : list F) (kappa : F), sp_lt K (sp0 K) dx -> sptrunc K fn = Z.of_nat n -> ip_quadrature F K [xmin; xmax; dx; fn] 3 false true xs = SpOk w -> dn_rho0_fn F (sp0 K) (spadd K) (spmul K) (n + 3) (fun l : nat => nth l w (sp0 K)) (fun _ : nat => kappa) = spmul K kappa (spmul K (sp_ofnat F K n) dx).
+Proof. exact dn_rho_const_cubic. Qed.
+Print Assumptions c16_rho_const_cubic.
+
+(** the coefficients of the interpolant of the nodal values of g are gam whenever gam represents g on every span (uniqueness step of c08_interp1d_reproduces, stated for the coefficients) *)
+Theorem c16_interp_coeffs :
+  forall (F : Type) (K : sp_ops F), sp_laws K -> forall (knots : list F) (p : nat) (gam : nat -> F) (g : F -> F), sp_sorted F K knots -> 2 * p + 1 < length knots -> sp_lt K (sp_kn F K knots p) (sp_kn F K knots (S p)) -> sp_lt K (sp_kn F K knots (length knots - p - 2)) (sp_kn F K knots (length knots - 1 - p)) -> (forall (x : F) (s : nat), sp_span_ok F K knots s -> p <= s -> sumn F (sp0 K) (spadd K) (S p) (fun j : nat => spmul K (gam (s - p + j)) (nth j (sp_A22 F K knots p x s) (sp0 K))) = g x) -> forall (xs : list F) (A Ainv : list (list F)) (u c : list F), let nb := ip_nbasis F K knots p false false in ip_colloc F K nb knots p false false xs = SpOk A -> ip_inverse_ok F K nb A Ainv = true -> (forall i : nat, i < nb -> sp_le K (sp_kn F K knots p) (nth i xs (sp0 K)) /\ sp_le K (nth i xs (sp0 K)) (sp_kn F K knots (length knots - 1 - p))) -> ip_interp1d F K knots p false false xs u = SpOk c -> (forall i : nat, i < nb -> nth i u (sp0 K) = g (nth i xs (sp0 K))) -> forall j : nat, j < nb -> nth j c (sp0 K) = gam j.
+Proof. exact dn_interp_coeffs. Qed.
+Print Assumptions c16_interp_coeffs.
+
+(** sum_j (t_{j+p+1}-t_j)/(p+1) * [Marsden coefficient of v^m] = (b^(m+1) - a^(m+1))/(m+1) on a clamped knot vector, m <= p (telescoping e_{m+1} over p+1 consecutive knots; e_k of a constant window; (m+1) C(p+1,m+1) = (p+1) C(p,m)) *)
+Theorem c16_mono_integral :
+  forall (F : Type) (K : sp_ops F), sp_laws K -> forall (knots : list F) (p m : nat), ip_clamped F K knots p -> m <= p -> sumn F (sp0 K) (spadd K) (length knots - p - 1) (fun j : nat => spmul K (spmul K (spsub K (sp_kn F K knots (j + p + 1)) (sp_kn F K knots j)) (spdiv K (sp1 K) (sp_ofnat F K (S p)))) (ip_mono_coeff F K knots p m j)) = spdiv K (spsub K (ip_pow F K (sp_kn F K knots (length knots - 1 - p)) (S m)) (ip_pow F K (sp_kn F K knots p) (S m))) (sp_ofnat F K (S m)).
+Proof. exact dn_mono_integral. Qed.
+Print Assumptions c16_mono_integral.
+
+(** rho_exact_polynomial: clamped general v space of degree p, interpolation points in the domain, checked inverse: for the nodal values of a polynomial of degree <= p the interpolant has the coefficients ip_poly_coeff, the density is sum_j I_j ip_poly_coeff_j, and it equals the exact integral sum_m a_m (b^(m+1)-a^(m+1))/(m+1) *)
+Theorem c16_rho_exact_polynomial :
+  forall (F : Type) (K : sp_ops F), sp_laws K -> forall (knots : list F) (p : nat) (a xs : list F) (A Ainv : list (list F)) (w u c : list F), let nb := ip_nbasis F K knots p false false in ip_clamped F K knots p -> length a <= S p -> ip_colloc F K nb knots p false false xs = SpOk A -> ip_inverse_ok F K nb A Ainv = true -> (forall i : nat, i < nb -> sp_le K (sp_kn F K knots p) (nth i xs (sp0 K)) /\ sp_le K (nth i xs (sp0 K)) (sp_kn F K knots (length knots - 1 - p))) -> ip_quadrature F K knots p false false xs = SpOk w -> ip_interp1d F K knots p false false xs u = SpOk c -> (forall i : nat, i < nb -> nth i u (sp0 K) = ip_polyval F K a (nth i xs (sp0 K))) -> (forall j : nat, j < nb -> nth j c (sp0 K) = ip_poly_coeff F K knots p a j) /\ dn_rho0_fn F (sp0 K) (spadd K) (spmul K) nb (fun l : nat => nth l w (sp0 K)) (fun l : nat => nth l u (sp0 K)) = sumn F (sp0 K) (spadd K) nb (fun j : nat => spmul K (spmul K (spsub K (sp_kn F K knots (j + p + 1)) (sp_kn F K knots j)) (spdiv K (sp1 K) (sp_ofnat F K (S p)))) (ip_poly_coeff F K knots p a j)) /\ dn_rho0_fn F (sp0 K) (spadd K) (spmul K) nb (fun l : nat => nth l w (sp0 K)) (fun l : nat => nth l u (sp0 K)) = dn_poly_integral F K a (sp_kn F K knots p) (sp_kn F K knots (length knots - 1 - p)).
+Proof. exact dn_rho_exact_polynomial. Qed.
+Print Assumptions c16_rho_exact_polynomial.
+
+(** finder_stateless: the model getPerturbedRho depends on the finder only through the equilibrium table and the weights - not on the process grid it was built for nor on what it was applied to before *)
+Theorem c16_finder_stateless :
+  forall (F : Type) (f0 : F) (fadd fmul fsub : F -> F -> F) (X Y : Type) (fd1 : dn_finder F X) (fd2 : dn_finder F Y) (s n m p : nat) (grid : list (list (list (list F)))), dnf_table F X fd1 = dnf_table F Y fd2 -> dnf_quad F X fd1 = dnf_quad F Y fd2 -> dn_finder_call F f0 fadd fmul fsub fd1 s n m p grid = dn_finder_call F f0 fadd fmul fsub fd2 s n m p grid.
+Proof. exact dn_finder_stateless. Qed.
+Print Assumptions c16_finder_stateless.
+
+(** a sequence of calls on one finder is the list of calls on fresh finders with the same table and weights *)
+Theorem c16_finder_calls_independent :
+  forall (F : Type) (f0 : F) (fadd fmul fsub : F -> F -> F) (X Y : Type) (fd : dn_finder F X) (fresh : Y -> dn_finder F Y) (calls : list (nat * nat * nat * nat * list (list (list (list F))))), (forall y : Y, dnf_table F Y (fresh y) = dnf_table F X fd /\ dnf_quad F Y (fresh y) = dnf_quad F X fd) -> forall ys : list Y, length ys = length calls -> dn_finder_calls F f0 fadd fmul fsub fd calls = map (fun yc : Y * (nat * nat * nat * nat * list (list (list (list F)))) => let (y, g) := snd yc in let (y0, p) := y in let (y1, m) := y0 in let (s, n) := y1 in dn_finder_call F f0 fadd fmul fsub (fresh (fst yc)) s n m p g) (combine ys calls).
+Proof. exact dn_finder_calls_independent. Qed.
+Print Assumptions c16_finder_calls_independent.
+
+(** the perturbed density of the equilibrium is exactly zero on every rank of every process grid: the row lookup by GLOBAL radius bstart + i is the only link to the process grid *)
+Theorem c16_finder_equilibrium_zero :
+  forall (F : Type) (f0 f1 : F) (fadd fmul fsub fdiv : F -> F -> F) (fopp finv : F -> F), field_theory f0 f1 fadd fmul fsub fopp fdiv finv eq -> forall (X : Type) (fd : dn_finder F X) (nr pr a m p : nat) (grid : list (list (list (list F)))) (ef : nat -> nat -> F), 0 < pr -> a < pr -> length (dnf_table F X fd) = nr -> (forall R l : nat, R < nr -> l < length (dnf_quad F X fd) -> dn_at2 F (dnf_table F X fd) R l = Some (ef R l)) -> (forall i j k l : nat, i < blen nr pr a -> j < m -> k < p -> l < length (dnf_quad F X fd) -> dn_at4 F grid i j k l = Some (ef (bstart nr pr a + i) l)) -> exists rho : list (list (list F)), dn_finder_call F f0 fadd fmul fsub fd (bstart nr pr a) (blen nr pr a) m p grid = Some rho /\ (forall i j k : nat, i < blen nr pr a -> j < m -> k < p -> dn_at3 F rho i j k = Some f0).
+Proof. exact dn_finder_equilibrium_zero. Qed.
+Print Assumptions c16_finder_equilibrium_zero.
+
 (** the theorems apply to the instance that is run *)
 Theorem c16_qc_field : field_theory (Q2Qc 0) (Q2Qc 1) Qcplus Qcmult Qcminus Qcopp Qcdiv Qcinv (@eq Qc).
 Proof. exact Qcft. Qed.
@@ -113,4 +187,19 @@ Proof.
   - vm_compute. reflexivity.
   - vm_compute. reflexivity.
 Qed.
+
+(** the composed theorems on Qc: cubic clamped space on [0,4], nodal values of 1 + v^3: density 68 = exact integral; constant 5: 20; Marsden coefficients *)
+Theorem c16_ex_polynomial :
+  match ip_quadrature Qc spq_ops ipq_ex_knots 3 false false ipq_ex_xs with
+  | SpOk w => spq_show (dxq_rho0 w dxq_u) = (68%Z, 1%positive)
+              /\ spq_show (dn_poly_integral Qc spq_ops dxq_poly (spq_of 0 1) (spq_of 4 1)) = (68%Z, 1%positive)
+              /\ spq_show (dxq_rho0 w (ipq_z [5; 5; 5; 5; 5; 5]%Z)) = (20%Z, 1%positive)
+  | _ => False
+  end
+  /\ match ip_interp1d Qc spq_ops ipq_ex_knots 3 false false ipq_ex_xs dxq_u with
+     | SpOk c => map spq_show c = map (fun j => spq_show (ip_poly_coeff Qc spq_ops ipq_ex_knots 3 dxq_poly j)) (seq 0 6)
+     | _ => False
+     end.
+Proof. exact dxq_ex_polynomial. Qed.
+Print Assumptions c16_ex_polynomial.
 
